@@ -62,30 +62,45 @@ var modes = map[string]ModeSpec{}
 
 // PartResult is the JSON handed to the check driver.
 type PartResult struct {
-	Mode        string   `json:"mode"`
-	Tier        string   `json:"tier"`
-	Cases       int      `json:"cases"`
-	CasesRun    int      `json:"cases_run"`
-	Evaluations int      `json:"evaluations"`
-	Distinct    int      `json:"distinct_nontrivial"`
-	States      int      `json:"states"`
-	Transitions int      `json:"transitions"`
-	Validated   int      `json:"traces_validated"`
-	Rule        string   `json:"rule"`
-	Samples     []any    `json:"samples"`
-	Exhaustive  bool     `json:"exhaustive"`
-	Caps        []string `json:"caps,omitempty"`
-	Outcomes    int      `json:"distinct_outcomes"`
+	Mode        string           `json:"mode"`
+	Tier        string           `json:"tier"`
+	Cases       int              `json:"cases"`
+	CasesRun    int              `json:"cases_run"`
+	Evaluations int              `json:"evaluations"`
+	Distinct    int              `json:"distinct_nontrivial"`
+	States      int              `json:"states"`
+	Transitions int              `json:"transitions"`
+	Validated   int              `json:"traces_validated"`
+	Rule        string           `json:"rule"`
+	Samples     []any            `json:"samples"`
+	Exhaustive  bool             `json:"exhaustive"`
+	Caps        []string         `json:"caps,omitempty"`
+	Outcomes    int              `json:"distinct_outcomes"`
 	Violations  []map[string]any `json:"violations"`
-	Errors      []string `json:"errors,omitempty"`
-	WallS       float64  `json:"wall_s"`
+	Errors      []string         `json:"errors,omitempty"`
+	WallS       float64          `json:"wall_s"`
 }
 
 func fnd(sig, format string, a ...any) Finding {
 	return Finding{Msg: fmt.Sprintf(format, a...), Sig: sig}
 }
 
-func runCase(c Case) (res CaseResult) {
+// caseTimeout bounds one case; a case that exceeds it is abandoned (its goroutine keeps
+// running until the process exits) and reported as a cap, never as a violation.
+var caseTimeout = 10 * time.Minute
+
+func runCase(c Case) CaseResult {
+	ch := make(chan CaseResult, 1)
+	go func() { ch <- runCaseInner(c) }()
+	select {
+	case r := <-ch:
+		return r
+	case <-time.After(caseTimeout):
+		return CaseResult{Capped: fmt.Sprintf("case did not finish within %v (abandoned; no verdict)", caseTimeout)}
+	}
+}
+
+func runCaseInner(c Case) (res CaseResult) {
 	defer func() {
 		if r := recover(); r != nil {
 			res.Findings = append(res.Findings, fnd("panic", "panic in case %s: %v\n%s", c.ID, r, debug.Stack()))
@@ -99,6 +114,14 @@ func main() {
 	debug.SetGCPercent(200)
 	if *replay != "" {
 		os.Exit(doReplay())
+	}
+	if *mode == "C27child" {
+		c27Child()
+		return
+	}
+	if *mode == "C19child" {
+		c19Child()
+		return
 	}
 	spec, ok := modes[*mode]
 	if !ok {
@@ -261,7 +284,7 @@ func doReplay() int {
 	}
 	var rp struct {
 		Mode, Tier, Case, Message string
-		Property         string `json:"claimed_property"`
+		Property                  string `json:"claimed_property"`
 	}
 	if err := json.Unmarshal(b, &rp); err != nil {
 		fmt.Fprintln(os.Stderr, err)
